@@ -27,6 +27,9 @@ type Scenario struct {
 	// run-time knobs (not part of the program)
 	Race bool `json:"race,omitempty"`
 	Reps int  `json:"reps,omitempty"`
+	// W, when set, makes this a "several goroutines wait for one thread" scenario (waiters.go);
+	// the channel fields above are then unused.
+	W *WaitSpec `json:"w,omitempty"`
 }
 
 type ChanSpec struct {
@@ -305,6 +308,9 @@ func (s *Scenario) payloadInt(id, seq int) int64 { return s.Base + int64(id)*100
 
 // Render produces the risor source of the scenario.
 func (s *Scenario) Render() string {
+	if s.W != nil {
+		return s.renderWaiters()
+	}
 	b := &sb{}
 	b.ln("import errors")
 	if s.Scope == "func" {
